@@ -93,8 +93,21 @@ def fieldNames : List String := ["A", "B", "C", "D", "E", "G", "X", "Y", "U.P", 
 def nFields : Nat := 11
 def returnField (f : Nat) : Option Nat := if f = 4 then some 10 else none
 def fieldName (i : Nat) : String := (fieldNames[i]?).getD "?"
-def unBlank (s : String) : String := s.map fun c => if c = '_' then ' ' else c
-def reBlank (s : String) : String := s.map fun c => if c = ' ' then '_' else c
+def hexDig (c : Char) : Option Nat :=
+  if c.isDigit then some (c.toNat - '0'.toNat) else if 'a' ≤ c ∧ c ≤ 'f' then some (c.toNat - 'a'.toNat + 10) else none
+def decWordL : List Char → List Char
+  | '%' :: a :: b :: rest =>
+    match hexDig a, hexDig b with
+    | some x, some y => Char.ofNat (16 * x + y) :: decWordL rest
+    | _, _ => '%' :: decWordL (a :: b :: rest)
+  | '_' :: rest => ' ' :: decWordL rest
+  | c :: rest => c :: decWordL rest
+  | [] => []
+def unBlank (s : String) : String := String.ofList (decWordL s.toList)
+def hexChar (n : Nat) : Char := if n < 10 then Char.ofNat ('0'.toNat + n) else Char.ofNat ('a'.toNat + n - 10)
+def reBlank (s : String) : String :=
+  String.ofList (s.toList.flatMap fun c =>
+    if c.isAlphanum then [c] else if c = ' ' then ['_'] else ['%', hexChar (c.toNat / 16), hexChar (c.toNat % 16)])
 
 def parseElem (s : String) : Option Elem :=
   if s = "t" then some (.bool true) else if s = "f" then some (.bool false)
@@ -108,7 +121,8 @@ def showElem : Elem → String
   | .num n => s!"n{n}" | .int n => s!"i{n}" | .str s => "s" ++ reBlank s
 
 def parseVal (s : String) : Option Val :=
-  if s = "t" then some (.bool true) else if s = "f" then some (.bool false)
+  if s = "z" then some .null
+  else if s = "t" then some (.bool true) else if s = "f" then some (.bool false)
   else if s.startsWith "n" then (s.drop 1).toString.toInt?.map .num
   else if s.startsWith "i" then (s.drop 1).toString.toInt?.map .int
   else if s.startsWith "s" then some (.str (unBlank (s.drop 1).toString))
@@ -122,13 +136,16 @@ def showVal : Val → String
   | .num n => s!"n{n}" | .int n => s!"i{n}" | .str s => "s" ++ reBlank s
   | .arr l => "a" ++ "^".intercalate (l.map showElem)
   | .obj n => s!"o{n}"
+  | .null => "z"
 
 def parseField (s : String) : Option Nat :=
   if s.startsWith "F" then (s.drop 1).toString.toNat?.bind fun i => if i < nFields then some i else none else none
 
 def parseCmp (s : String) : Option Cmp :=
   if s = "eq" then some .eq else if s = "ne" then some .ne else if s = "gt" then some .gt
-  else if s = "lt" then some .lt else if s = "ge" then some .ge else if s = "le" then some .le else none
+  else if s = "lt" then some .lt else if s = "ge" then some .ge else if s = "le" then some .le
+  else if s = "co" then some .contains else if s = "nc" then some .notContains else if s = "sw" then some .startsWith
+  else if s = "ew" then some .endsWith else if s = "ma" then some .matches else if s = "in" then some .isIn else none
 
 def parseAtom (s : String) : Option Atom :=
   match s.splitOn "." with
